@@ -374,7 +374,7 @@ func runCheckOpts(opts *CheckOpts) int {
 			fuc = append(fuc, rep.Name)
 			hasPost := false
 			for _, o := range rep.vc.obligs {
-				if o.Kind == "post" || o.Kind == "bounds" || o.Kind == "nowrap" || o.Kind == "lemma" {
+				if o.Kind == "post" || o.Kind == "bounds" || o.Kind == "nowrap" || o.Kind == "lemma" || o.Kind == "call-arg" {
 					hasPost = true
 				}
 			}
